@@ -107,8 +107,16 @@ peg::parser! {
             }
 
         rule single_char_bracket_member() -> (String, char) =
-            // Preserve escaped characters as-is.
-            ['\\'] [c] { (std::format!("\\{c}"), c) } /
+            // Preserve escaped characters as-is; an escaped letter or digit must not
+            // reach the regex engine as `\c` though, where it would be a regex escape
+            // (`\a` BEL, `\d` digits, ...) rather than the character itself.
+            ['\\'] [c] {
+                if c.is_ascii_alphanumeric() {
+                    (c.to_string(), c)
+                } else {
+                    (std::format!("\\{c}"), c)
+                }
+            } /
             // Escape opening bracket.
             ['['] { (String::from(r"\["), '[') } /
             // Any other character except closing bracket gets added as-is.
